@@ -86,6 +86,7 @@ class Ctx:
         self.succ = []
         self.stats = {}
         self.dense_outcomes = set()
+        self.prune = {"C06", "C07", "C15", "C17"}
 
     def v(self, prop, site, op, detail):
         self.viol.append((prop, site, op, str(detail)[:1500]))
@@ -214,22 +215,37 @@ def equality_ok(obj, exp_dense, opd, ctx, opname):
 
 
 def check_result(obj, exp_dense, opd, ctx, opname, chosen_common=False, enqueue=True):
-    """All invariants on a resulting state. Returns its key if clean (and enqueues it)."""
+    """All invariants on a resulting state. Returns its key if clean.
+
+    The target is enqueued for expansion unless the transition violated a property in ctx.prune (the property being
+    decided, so that the first counterexample is the shortest and malformed states do not multiply) or the state cannot be
+    modelled at all (the independent reader rejects it)."""
+    n0 = len(ctx.viol)
     ok = dense_equal(obj, exp_dense, opd, ctx, opname)
-    ok = wellformed(obj, exp_dense if ok else None, opd, ctx, opname) and ok
+    wf = wellformed(obj, exp_dense if ok else None, opd, ctx, opname)
+    ok = wf and ok
     if ok:
         ok = equality_ok(obj, exp_dense, opd, ctx, opname) and ok
     if ok and chosen_common and not most_frequent_ok(exp_dense, obj.common):
         ctx.v("C15", "%s:common-not-most-frequent" % opname, opd, "library chose common %r for dense %r" % (obj.common, exp_dense.tolist()))
         ok = False
     ctx.ntrans += 1
+    k = None
     if ok:
         k = key_of(obj)
         ctx.dense_outcomes.add((tuple(exp_dense.shape), exp_dense.tobytes()))
-        if enqueue:
+    if enqueue:
+        blocking = any(v[0] in ctx.prune for v in ctx.viol[n0:])
+        if ok:
             ctx.succ.append((k, opd))
-        return k
-    return None
+        elif not blocking:
+            # violates only a property other than the one being decided: keep exploring from it if it can be modelled
+            try:
+                M.read_dense(obj)
+                ctx.succ.append((key_of(obj), opd))
+            except Exception:
+                pass
+    return k
 
 
 def unchanged(snap_key, obj, what, opd, ctx, opname, prop="C06"):
@@ -278,13 +294,15 @@ def reindex_mappings(common, present):
 
 # ----------------------------------------------------------------------------- expansion
 
-def expand(key, cfg, reverse=False):
+def expand(key, cfg, reverse=False, prune=None):
     """Execute every enabled operation from the state `key`. Returns a Ctx."""
     from catii import iindexes
     from catii.iindexes import iindex
     from catii.indxio import IndxIO
 
     ctx = Ctx(key)
+    if prune is not None:
+        ctx.prune = set(prune)
     shape, common, _ = key
     d = dense_of(key)
     ndim = len(shape)
@@ -411,9 +429,13 @@ def expand(key, cfg, reverse=False):
     # --- reindexed --------------------------------------------------------------------------------------
     present = set(int(x) for x in d.flat)
     for name, m in reindex_mappings(common, present):
-        for copy in (True, False):
+        # (copy, shift, assume_unique): on a well-formed index merged coordinates never share a row id (one value per cell), so the
+        # caller's guarantee for assume_unique=True always holds; shift=False only skips the re-normalisation
+        for copy, shift, au in ((True, True, False), (False, True, False), (True, True, True), (True, False, False), (False, False, True)):
             s = fresh()
             opd = {"op": "reindexed", "mapping": name, "map": None if m is None else {str(k2): v for k2, v in m.items()}, "copy": copy}
+            if not shift or au:
+                opd.update(shift=shift, assume_unique=au)
             if m is None:
                 listed = sorted(present - {common})
                 mm = {v: i for i, v in enumerate(listed)}
@@ -422,7 +444,7 @@ def expand(key, cfg, reverse=False):
             m_arg = None if m is None else dict(m)
             exp = numpy.vectorize(lambda x: mm.get(int(x), int(x)), otypes=[numpy.int64])(d) if d.size else d.copy()
             try:
-                r = s.reindexed(m_arg, copy=copy)
+                r = s.reindexed(m_arg, copy=copy, shift=shift, assume_unique=au)
                 check_result(r, exp, opd, ctx, "reindexed")
                 if copy:
                     no_shared_memory(s, r, opd, ctx, "reindexed")
@@ -630,9 +652,10 @@ def _expand_set_updates(key, d, fresh, ctx):
             o = {cc: list(r) for cc, r in listed.items()}
             o[c] = rows[:i] + rows[i + 1:]
             cands.append(o)
-        o = {cc: list(r) for cc, r in listed.items()}
-        o[c] = sorted(set(rows) | {(rows[-1] + 1) % max(nrows, 1)})
-        cands.append(o)
+        if rows:
+            o = {cc: list(r) for cc, r in listed.items()}
+            o[c] = sorted(set(rows) | {(rows[-1] + 1) % max(nrows, 1)})
+            cands.append(o)
     for other in cands:
         exp = {}
         for c, rows in listed.items():
@@ -671,14 +694,15 @@ def initial_keys(cfg):
 
 _CFG = None
 _REV = False
+_PRUNE = None
 
 
 def _w_expand(key):
     try:
-        ctx = expand(key, _CFG)
+        ctx = expand(key, _CFG, prune=_PRUNE)
         res = [(key, ctx.viol, ctx.ntrans, ctx.succ, ctx.stats, ctx.dense_outcomes)]
         if _REV:
-            ctx2 = expand(key, _CFG, reverse=True)
+            ctx2 = expand(key, _CFG, reverse=True, prune=_PRUNE)
             s1 = sorted((k, repr(o)) for k, o in ctx.succ)
             s2 = sorted((k, repr(o)) for k, o in ctx2.succ)
             if s1 != s2 or len(ctx2.viol) != len(ctx.viol):
@@ -691,11 +715,18 @@ def _w_expand(key):
         return (key, "ERROR: " + traceback.format_exc(), 0, [], {}, set())
 
 
-def search(tier, nproc=None, stop_props=None, max_seconds=None):
-    """BFS to fixpoint. Returns dict with states, transitions, depth, violations (with paths), ..."""
-    global _CFG, _REV
+def search(tier, nproc=None, prop=None, max_seconds=None, max_states=200000):
+    """BFS to fixpoint. Returns dict with states, transitions, depth, violations (with paths), ...
+
+    prop: the property being decided. Targets of transitions violating it are not expanded, and the search stops after the
+    first BFS level on which it is violated (shortest counterexample). Violations of other properties are counted, and their
+    targets are still expanded when they can be modelled."""
+    global _CFG, _REV, _PRUNE
     cfg = BOUNDS[tier]
     _CFG = cfg
+    _PRUNE = {prop} if prop else None
+    if prop == "C15":
+        _PRUNE = {"C15", "C07"}  # equality is only claimed between well-formed indexes
     _REV = bool(cfg.get("two_orders"))
     t0 = time.time()
     init = initial_keys(cfg)
@@ -723,8 +754,8 @@ def search(tier, nproc=None, stop_props=None, max_seconds=None):
                 dense_outcomes |= dout
                 for k2, v2 in st.items():
                     stats[k2] = stats.get(k2, 0) + v2
-                for prop, site, opd, detail in viol:
-                    violations.append({"property": prop, "site": site, "op": opd, "detail": detail, "state": key, "depth": depth})
+                for vprop, site, opd, detail in viol:
+                    violations.append({"property": vprop, "site": site, "op": opd, "detail": detail, "state": key, "depth": depth})
                     pruned += 1
                 for k2, opd in succ:
                     if k2 not in parent:
@@ -732,7 +763,10 @@ def search(tier, nproc=None, stop_props=None, max_seconds=None):
                         nxt.append(k2)
             depth += 1 if nxt else 0
             frontier = nxt
-            if max_seconds and time.time() - t0 > max_seconds:
+            if prop and any(v["property"] == prop for v in violations):
+                capped = bool(frontier)
+                break
+            if (max_seconds and time.time() - t0 > max_seconds) or len(parent) > max_states:
                 capped = bool(frontier)
                 break
     finally:
